@@ -36,7 +36,7 @@ type chanOp struct {
 func pkgFuncs(p *Program, rel string) []*ssa.Function {
 	var out []*ssa.Function
 	for _, fn := range p.OwnFuncs() {
-		if idOf(fn).pkg == modPath+"/"+rel && fn.Synthetic == "" {
+		if idOf(fn).pkg == modPath+"/"+rel && (fn.Synthetic == "" || strings.HasPrefix(fn.Synthetic, "instance of")) {
 			out = append(out, fn)
 		}
 	}
